@@ -305,7 +305,12 @@ func (r *Run) finish() int {
 		fmt.Fprintf(os.Stderr, "evidence marshal: %v\n", err)
 		return ExitInconclusive
 	}
-	if err := os.WriteFile(filepath.Join(dir, r.ID+".json"), buf, 0o644); err != nil {
+	evPath := filepath.Join(dir, r.ID+".json")
+	if os.Getenv("VERIF_REPLAY") != "" {
+		// a replay of one case must not replace the evidence of the full run
+		evPath = filepath.Join(VerifDir, "replays", r.ID+"-replay-evidence.json")
+	}
+	if err := os.WriteFile(evPath, buf, 0o644); err != nil {
 		fmt.Fprintf(os.Stderr, "evidence write: %v\n", err)
 		return ExitInconclusive
 	}
